@@ -106,6 +106,28 @@ print("end", @global:level@, @global:flag@)
 `},
 }
 
+func init() {
+	// the same spelling used in different scopes (locals of two functions on one call chain, and a
+	// global defined after both): a renaming changes all of them consistently
+	c10Corpus = append(c10Corpus, c10Prog{"shared-spelling", `func @func:inner@(@param:seed@ int) int {
+	@local:count@ := @param:seed@ + 3
+	@local:count@ += 1
+	return @local:count@ * 2
+}
+func @func:outer@(@param:seed@ int) int {
+	@local:count@ := 5
+	@local:extra@ := @func:inner@(@local:count@ + @param:seed@)
+	@local:count@ += @local:extra@
+	return @local:count@
+}
+@global:result@ := @func:outer@(1)
+@local:count@ := 100
+@global:result@ += @func:outer@(2) + @local:count@
+@local:count@++
+print(@global:result@, @local:count@, @func:inner@(0))
+`})
+}
+
 var c10Hole = regexp.MustCompile(`@([a-z]+):([A-Za-z0-9_]+)@`)
 
 func c10Roles(text string) [][2]string { // (kind, default name), in order of first occurrence
@@ -228,6 +250,14 @@ func C10() int {
 		tw := drive.TranspileSrc(src, drive.Batch)
 		c10Harvest(tb.Script, bashNames, user, reserved)
 		c10Harvest(tw.Script, batchNames, user, reserved)
+	}
+	// names SHAPED like the reserved ones: every family (digits stripped) extended by letters / digits+letters
+	for n := range reserved {
+		fam := c10Digits.ReplaceAllString(n, "")
+		if strings.HasPrefix(fam, "_") || strings.Contains(fam, "_") {
+			reserved[fam+"its"] = true
+			reserved[fam+"7x"] = true
+		}
 	}
 	harvested := len(reserved)
 	for _, v := range c10ShellVocabulary {
